@@ -289,6 +289,34 @@ func c13(r *rep.Run) {
 			r.Sample(8, map[string]interface{}{"source": c.src})
 		}
 	})
+	// deep nesting: Dump indents by nesting level, so its text grows roughly
+	// with the square of the depth (a 7 KB source of 1100 levels dumps to more
+	// than 1 MB); whatever Compile accepted must dump to text Compile accepts
+	{
+		depths := []int{300, 1100}
+		if r.Thorough() {
+			depths = append(depths, 1600)
+		}
+		var deep []*c13case
+		for _, dpt := range depths {
+			deep = append(deep,
+				&c13case{src: strings.Repeat("(not ", dpt) + "b" + strings.Repeat(")", dpt), vars: []term.VarDecl{{Name: "b", Ty: term.TB}}, binds: [][]interface{}{{true}, {false}}, what: fmt.Sprintf("not-chain of %d levels", dpt)},
+				&c13case{src: strings.Repeat("(+ 1 ", dpt) + "n" + strings.Repeat(")", dpt), vars: []term.VarDecl{{Name: "n", Ty: term.TI}}, binds: [][]interface{}{{int64(5)}}, what: fmt.Sprintf("sum-chain of %d levels", dpt)})
+		}
+		type dj struct {
+			c *c13case
+			o drive.Opt
+		}
+		var djs []dj
+		for _, c := range deep {
+			djs = append(djs, dj{c, drive.Opt{}}, dj{c, drive.Opt{CF: true, RN: true, FE: true, RO: true}})
+		}
+		r.ParallelFor(len(djs), func(w, i int) {
+			r.Note(w, djs[i].c.what)
+			c13Round(r, hs[w], djs[i].c, djs[i].o, &stats)
+		})
+		r.Cov["deep_nesting_rounds"] = len(djs)
+	}
 	// (2) structural corpus
 	progs, _ := corpus(progMax, progMax)
 	// every shape of nested if / fast operator / and up to 8 nodes over a tiny alphabet
